@@ -73,7 +73,7 @@ func genL3(t *rapid.T) L3Case {
 		c.Subs = append(c.Subs, rapid.SampledFrom([]string{"rtmp", "flv", "ts"}).Draw(t, "sub"))
 	}
 	c.Cycles = rapid.SampledFrom([]int{1, 1, 2}).Draw(t, "cycles")
-	c.Codecs = genCodecs(t, 0)
+	c.Codecs = genCodecs(t, 0, "rtmp")
 	c.Items, _ = genItems(t, c.Codecs, 0, 0, 1000)
 	c.End = rapid.SampledFrom([]string{"close", "close", "silent"}).Draw(t, "end")
 	opts := []string{"before", "after"}
